@@ -76,7 +76,7 @@ MENU = {
     "openTypeNameManufacturerURL": ["https://example.com/"],
     "openTypeNameLicense": ["Licensed under terms " + S_LAT],
     "openTypeNameLicenseURL": ["https://example.com/license"],
-    "openTypeNameVersion": ["Version 3.007 beta", "3.7;build"[:3]],
+    "openTypeNameVersion": ["Version 3.007 beta", "3.7;build"[:3], "Version r2048", "release 2.1"],
     "openTypeNameUniqueID": ["Verif:unique:1", S_BMP],
     "openTypeNameDescription": ["A description\nwith a second line", S_AST],
     "openTypeNamePreferredFamilyName": ["Verif Pref", "Verif", S_BMP],
